@@ -60,8 +60,18 @@ var c17Ops = map[string][]string{
 	"bytes":   {"hsms.Parse"},
 	"text":    {"sml.Parse"},
 	// calls that must be refused, alone and in company (a process-wide switch flipped by another call would let them through)
-	"refused": {"dup-list-var-vs-child", "dup-in-children", "two-ellipses", "ellipsis-first", "u1-range", "i1-range", "ascii-8bit", "stream-range", "w-on-reply", "f4-inf", "rename-collision", "fill-range", "fill-dup"},
+	"refused": {"dup-list-var-vs-child", "dup-in-children", "two-ellipses", "ellipsis-first", "u1-range", "i1-range", "ascii-8bit", "stream-range", "w-on-reply", "f4-inf", "rename-collision", "fill-range", "fill-dup", "ascii-over-limit", "i8-over-limit"},
 }
+
+// arguments just beyond the item size limit, built once and only read afterwards
+var overLimitString = strings.Repeat("z", ref.MaxBytes+1)
+var overLimitInts = func() []interface{} {
+	v := make([]interface{}, ref.MaxBytes/8+1)
+	for i := range v {
+		v[i] = i
+	}
+	return v
+}()
 
 func msgSummary(m *ast.DataMessage) string {
 	s := real.Snap(m)
@@ -187,6 +197,10 @@ func doOp(o *sharedObj, op string, tag string) (res string) {
 			return real.Str(o.item.FillVariables(map[string]interface{}{"b": 300}))
 		case "fill-dup":
 			return real.Str(o.item.FillVariables(map[string]interface{}{"item": "b"}))
+		case "ascii-over-limit":
+			return fmt.Sprint(ast.NewASCIINode(overLimitString).Size())
+		case "i8-over-limit":
+			return fmt.Sprint(ast.NewIntNode(8, overLimitInts...).Size())
 		}
 	case "text":
 		msgs, errs, warns := sml.Parse(o.text)
@@ -194,7 +208,18 @@ func doOp(o *sharedObj, op string, tag string) (res string) {
 		for _, m := range msgs {
 			sb.WriteString(msgSummary(m))
 		}
-		return sb.String() + fmt.Sprint(errs, warns)
+		res := sb.String() + fmt.Sprint(errs, warns)
+		// what Parse returned is this caller's: it may replace and clear entries as it likes
+		for i := range msgs {
+			msgs[i] = nil
+		}
+		for i := range errs {
+			errs[i] = "cleared by the caller"
+		}
+		for i := range warns {
+			warns[i] = "cleared by the caller"
+		}
+		return res
 	}
 	return "?"
 }
@@ -672,6 +697,20 @@ func runC17(c *ctx) {
 					oi := (gID + idx) % len(ops)
 					t0 := int64(time.Since(t00))
 					note(o, oi, doOp(o, ops[oi], fmt.Sprintf("w%dg%df%d", round, gID, idx)), t0)
+					if o.kind == "data" {
+						// a message's first encoding and the first derivations from it, by everybody, in either order
+						first, second := 1, 7 // ToBytes, SetSession
+						if gID%2 == 1 {
+							first, second = 7, 1
+						}
+						if (gID/2)%2 == 1 {
+							second = 6 // SetWaitBit
+						}
+						for _, k := range []int{first, second} {
+							t0 := int64(time.Since(t00))
+							note(o, k, doOp(o, ops[k], ""), t0)
+						}
+					}
 				}
 				for k := 0; k < opsPer; k++ {
 					var o *sharedObj
